@@ -14,7 +14,7 @@ pub const SPEC: Spec = Spec {
     rule: "mode A: the C05 program population (type-directed IRs with all combinators, witnesses, assertions, fail, disconnect, jets) on 1-3 inputs; mode B: comp/disconnect nests of depth up to 200 (left-nested, right-nested, mixed) over endo-expressions of a drawn type with wide middle types, unequal case branches and wide witnesses; after every execution (successful or failing) the hook's high-water marks must satisfy max_cells <= width(src)+width(tgt)+extra_cells and max_frames <= extra_frames+2, with no panic or debug assertion; mode C: type-bomb programs (k = 20..70 doublings, 2^k-bit middle type) must be refused by BitMachine::for_program (and building them must not panic) - run for bounds >= 2^45 cells, far above any plausible limit. Non-trivial: >= 1 comp or disconnect executed and max_cells > io width, or a refusal case. Distinct by (program, input).",
     design_ref: "§6 C07",
     max_len: 1200,
-    quick_cases: 30_000,
+    quick_cases: 60_000,
     thorough_cases: 600_000,
     alloc_limit: 512 << 20,
     ..Spec::base("C07", "Static resource bounds cover every execution", case)
